@@ -1,4 +1,5 @@
 import RV.Model.Particles
+import RV.Model.ParticlesSide
 /-
   drv_c14 — runs RV.Particles (the model of particle.c bookkeeping, reb_hash and the
   Python container index rules) on op lines produced by rv/c14.py.
@@ -9,6 +10,7 @@ import RV.Model.Particles
     new tree box forced merc     fresh simulation (0/1 flags)
     tupd q1,q2,..|-              reb_simulation_update_tree; the positions the walk evicts, in order (from the implementation)
     istep v0,v1,..               one MERCURIUS step: the dcrit array it left (bit patterns)
+    ks re n idx | mercp1 zf safe synced rr rc nd n | side exact|grow slot0 skipEmpty alloc n   (RV.Particles.Side)
     add id hash geo              geo: 0 in box, 1 outside boundary, 2 outside tree box
     rm index ks
     rmh hash ks HINT
@@ -124,6 +126,30 @@ def stepLine (d : DS) (toks : List String) : DS × String :=
   | ["new", t, b, f, m] =>
     let c := State.init (bit t) (bit b) (bit f) (bit m)
     answer d c .done "none"
+  | ["ks", re, n, idx] =>
+    -- the TRACE current_Ks reshuffle on the matrix whose entry k is k: leading (n-1)x(n-1) block
+    match n.toNat?, idx.toNat? with
+    | some n, some idx =>
+      (d, match RV.Particles.Side.reshuffle (bit re) n idx (RV.Particles.Side.idMatrix n) with
+          | some out => joinOr ((out.take ((n - 1) * (n - 1))).map toString)
+          | none => "fault")
+    | _, _ => (d, "bad-op")
+  | ["mercp1", zf, safe, synced, rr, rcc, nd, n] =>
+    -- MERCURIUS part1 on a dcrit array with nd written cells: was an unwritten cell read? new size, flags
+    match nd.toNat?, n.toNat? with
+    | some nd, some n =>
+      let m : RV.Particles.Side.Merc := ⟨(List.range nd).map (fun i => some i), bit rr, bit rcc, bit safe, bit synced⟩
+      let r := RV.Particles.Side.part1 (bit zf) m n (fun i => 1000 + i)
+      (d, s!"uninit={b2s r.2} nd={r.1.dcrit.length} rr={b2s r.1.recalcR} rc={b2s r.1.recalcC} synced={b2s r.1.synced}")
+    | _, _ => (d, "bad-op")
+  | ["side", pol, s0, se, alloc, n] =>
+    -- one step of an integrator with a per-particle side array
+    match alloc.toNat?, n.toNat? with
+    | some alloc, some n =>
+      let k : RV.Particles.Side.Kind := ⟨if pol = "exact" then .exact else .growOnly, bit s0, bit se⟩
+      let r := RV.Particles.Side.sideStep k ⟨alloc, n⟩ .step
+      (d, s!"{r.1.alloc} {b2s r.2}")
+    | _, _ => (d, "bad-op")
   | ["tupd", vs] =>
     match parseNats vs with
     | some visit => let (c', o) := treeUpdate d.v d.c visit; answer d c' o "none"
